@@ -131,22 +131,12 @@ def alias_missing(prog, detail):
 
 
 def classify_aasm(o, a, fixed_by_slots, info, prog):
+    """The only open root cause left is the module alias; the former classes (named func constant,
+    float text, StoreMemI operands, missing mnemonics, flattened hierarchy, slot ids) were repaired
+    in /repo and a recurrence must surface as an unclassified difference."""
     d = a[3]
     if a[0] == "load-error:module" and alias_missing(prog, d):
         return "aasm:module-alias-not-resolvable"
-    m = re.match(r"assemble\|Unknown opcode: (\w+)", d)
-    if m:
-        return "aasm:assembler-missing-opcode:" + m.group(1)
-    if d.startswith("assemble|Invalid number:"):
-        return "aasm:float-constant-printed-without-point"
-    if re.match(r"assemble\|Parse error at line \d+: Expected directive, got String\(", d):
-        return "aasm:named-func-constant-unparsed"
-    if re.match(r"assemble\|Expected (register|u8|i16), got (Int|Register)\(", d):
-        return "aasm:operand-syntax-mismatch"
-    if fixed_by_slots:
-        return "aasm:slot-ids-zeroed"
-    if a[0] == "runtime:InvalidBytecode" and "invalid nested function index" in d and int(info[1]) >= 2:
-        return "aasm:nested-hierarchy-flattened"
     return f"aasm:behaviour-differs:{o[0]}->{a[0]}"
 
 
@@ -197,9 +187,7 @@ def observational(ctx, prof, pfile, progs, wd, ncorpus):
         a = v.get("avbc")
         if a and a[:3] != o:
             ok_all = False
-            if "avbc+slots" in v and v["avbc+slots"][:3] == o:
-                sig = "avbc:slot-ids-zeroed"
-            elif a[0] == "load-error:module" and alias_missing(progs[i], a[3]):
+            if a[0] == "load-error:module" and alias_missing(progs[i], a[3]):
                 sig = "avbc:module-alias-not-resolvable"
             else:
                 sig = f"avbc:behaviour-differs:{o[0]}->{a[0]}"
